@@ -41,14 +41,17 @@ def run(ctx):
             sig = "FailClosed:frontend:%s:%s" % ("non-exact" if c["ptype"] != "exact" else "exact", sub)
         else:
             sig = "FailClosed:backend:%s:%s:%s" % (c["url"], c["oauth"], sub)
+        if b.get("alias"):
+            sig += ":through-alias"
         if sig in seen:
             continue
         seen.add(sig)
         rf = ctx.path("viol", b["id"] + ".json")
         json.dump(recs[b["id"]], open(rf, "w"), indent=1)
         d = core.save_replay(ctx, sig, [rf], dict(invariant="FailClosed", case=c, request=path))
-        core.classify(ctx, sig, "FailClosed: request a.local%s reaches the protected path without a covering deny/auth-intercept; case %s; "
-                      "frontend rules %s; backend rules %s" % (path, c, [a["raw"] for a in recs[b["id"]]["front"]][:3],
+        who = "b.local%s (b.local is the server-alias of a.local)" if b.get("alias") else "a.local%s"
+        core.classify(ctx, sig, ("FailClosed: request " + who + " reaches the protected path without a covering deny/auth-intercept; case %s; "
+                      "frontend rules %s; backend rules %s") % (path, c, [a["raw"] for a in recs[b["id"]]["front"]][:3],
                                                                 [a["raw"] for a in recs[b["id"]]["backend"]["auth"]][:3]), d)
     guarded = sum(1 for x in recs.values() if x["front"] or x["backend"]["auth"])
     core.write_evidence(ctx, [dict(case=recs["c5"]["cs"], backend_rules=[a["raw"] for a in recs["c5"]["backend"]["auth"]],
